@@ -13,6 +13,9 @@ claimed = {
  "C20": ("Deductive proof for all n >= 0 and all worker limits m >= 1 (NumCPU symbolic >= 1): loop invariant over the ghost coverage frontier shows the ranges handed to the goroutines are contiguous, disjoint, non-empty, within [0,n) and end at n; at most min(n,m) invocations; fork/join ghost protocol (rule R1) shows every goroutine calls the work function exactly once with its captured range, then Done once, that Wait is reached with counter == spawned, and that captured variables are not written after the go statement.",
          "Assumed: sync.WaitGroup counter semantics and runtime.NumCPU() >= 1 (A4), soundness of the fork/join rule for the Go memory model (A6), work function cannot reach Execute's locals; interleavings are not enumerated.",
          "DESIGN.md §8 C20", "contract-based deductive verification: loop invariants + fork/join ghost protocol over go/ssa, discharged by z3/cvc5"),
+ "C18": ("Deductive proof, for all inputs, of code == formula on the real barycentric code: every one of the 512+510 table entries equals its defining product / inverse (quantified loop invariants), q_i = (f_i - f_k)/(i-k) with the correct sign for every index distance, q_k = -sum A'(k)/A'(i) q_i, L_i(z) = A(z)/(A'(x_i)(z - x_i)) through batch inversion (itself proved), index safety of every table access.",
+         "Assumed: that these formulas are the Lagrange / polynomial-quotient identities is mathematics (L9, L10), not re-proved; field-view contracts of fr arithmetic are the images of the limb-level contracts proved in package fr (A3); Inverse at limb level is a bounded stand-in; generator and solvers.",
+         "DESIGN.md §8 C18", "contract-based deductive verification: quantified loop invariants against recursive spec functions over an abstract field, discharged by z3 (E-matching)"),
 }
 hooks=subprocess.run(['git','-C','/repo','log','--format=%H %s'],capture_output=True,text=True).stdout.strip().split('\n')
 hook_commits=[l.split()[0] for l in hooks if 'verif hook' in l]
